@@ -132,6 +132,19 @@ namespace via
     ////////////////////////////////////////////////////////////////////////
     // Functions
 
+    /// Set the HTTP version of a response to the version of the request.
+    /// @param response the response to send.
+    void set_version(http::tx_response& response) const
+    {
+      // Note: the request is unknown if it was invalid or has already been
+      // cleared, in which case the response is sent as HTTP/1.1
+      if (rx_.request().major_version() != 0)
+      {
+        response.set_major_version(rx_.request().major_version());
+        response.set_minor_version(rx_.request().minor_version());
+      }
+    }
+
     /// Send buffers on the connection.
     /// @param buffers the data to write.
     bool send(comms::ConstBuffers buffers)
@@ -250,8 +263,7 @@ namespace via
     bool send_response()
     {
       http::tx_response response(rx_.response_code());
-      response.set_major_version(rx_.request().major_version());
-      response.set_minor_version(rx_.request().minor_version());
+      set_version(response);
       tx_header_ = response.message();
 
       return send(comms::ConstBuffers(1, ASIO::buffer(tx_header_)),
@@ -267,8 +279,7 @@ namespace via
       if (!response.is_valid())
         return false;
 
-      response.set_major_version(rx_.request().major_version());
-      response.set_minor_version(rx_.request().minor_version());
+      set_version(response);
       tx_header_ = response.message();
 
       return send(comms::ConstBuffers(1, ASIO::buffer(tx_header_)),
@@ -285,8 +296,7 @@ namespace via
       if (!response.is_valid())
         return false;
 
-      response.set_major_version(rx_.request().major_version());
-      response.set_minor_version(rx_.request().minor_version());
+      set_version(response);
       tx_header_ = response.message(body.size());
       comms::ConstBuffers buffers(1, ASIO::buffer(tx_header_));
 
@@ -318,8 +328,7 @@ namespace via
       if (rx_.is_head())
         buffers.clear();
 
-      response.set_major_version(rx_.request().major_version());
-      response.set_minor_version(rx_.request().minor_version());
+      set_version(response);
       tx_header_ = response.message(size);
       buffers.push_front(ASIO::buffer(tx_header_));
 
